@@ -31,8 +31,8 @@ func C12(c *Ctx) int {
 			holes = 3
 		}
 		hs = append(hs, Harness{Name: fmt.Sprintf("fe.Holes[tpl=%d,holes<=%d]", t, holes), Pkg: "internal/codegen", Func: "H_Holes",
-			Params: map[string]int{"tpl": t, "holes": holes}, Reach: []string{"rejected"}, Quiet: true,
-			Bounds: fmt.Sprintf("template %d with up to %d holes, each an arbitrary byte (any value, invalid UTF-8 included)", t, holes)})
+			Params: map[string]int{"tpl": t, "holes": holes, "emit": 1}, Reach: []string{"rejected"}, Quiet: true,
+			Bounds: fmt.Sprintf("template %d with up to %d holes, each an arbitrary byte (any value, invalid UTF-8 included); accepted specifications go on into EmitLexer and the closures it hands to the template engine", t, holes)})
 	}
 	for t := 0; t < 3; t++ {
 		hs = append(hs, Harness{Name: fmt.Sprintf("fe.HolesTwoFiles[tpl=%d]", t), Pkg: "internal/codegen", Func: "H_HolesTwoFiles",
